@@ -2,7 +2,7 @@
    Only statements, `exact`, Print Assumptions and non-vacuity examples. *)
 From Coq Require Import List Bool Arith Reals Lra Sorted.
 Import ListNotations.
-From PS Require Import Num RLemmas Valid ModelKernels ModelFuncs ModelAPI Spec SyncDefs Lem_IsiProps Lem_Spike Lem_Mrts Lem_API Lem_WF Lem_API2.
+From PS Require Import Num RLemmas Valid ModelKernels ModelFuncs ModelAPI Spec SyncDefs Lem_IsiProps Lem_Spike Lem_Mrts Lem_API Lem_WF Lem_API2 Lem_API3 Lem_API4 Lem_API5 Lem_API7.
 From PS Require Lem_Order Lem_OrderSpec.
 Require Import PS.Props.PropTac.
 Local Open Scope R_scope.
@@ -116,6 +116,50 @@ Theorem C07_multi_ranges : forall eps cy m mt ri iv l ts te, (2 <= length l)%nat
   (exists d, spike_sync_multi ROps eps cy false mt m iv l None = Ok d /\ 0 <= d <= 1).
 Proof. exact multi_ranges. Qed.
 Print Assumptions C07_multi_ranges.
+
+(* ---- from Lem_API5.v ---- *)
+Theorem C07_isi_matrix_props : forall eps cy m iv l idx ts te,
+  Forall (vtrain ts te) l -> iv_ok ts te iv -> idx_ok (length l) idx ->
+  exists M, isi_distance_matrix ROps eps cy false m iv l idx = Ok M /\
+    dist_matrix (msize l idx) 0 M /\
+    (forall i j, (i < j)%nat -> (j < msize l idx)%nat ->
+       isi_distance_bi ROps eps cy false m iv (sel l idx i) (sel l idx j) = Ok (ent M i j)).
+Proof. exact isi_matrix_props. Qed.
+Print Assumptions C07_isi_matrix_props.
+Theorem C07_spike_matrix_props : forall eps cy m ri iv l idx ts te,
+  Forall (vtrain ts te) l -> iv_ok ts te iv -> 0 <= m -> idx_ok (length l) idx ->
+  exists M, spike_distance_matrix ROps eps cy false m ri iv l idx = Ok M /\
+    dist_matrix (msize l idx) 0 M /\
+    (forall i j, (i < j)%nat -> (j < msize l idx)%nat ->
+       spike_distance_bi ROps eps cy false m ri iv (sel l idx i) (sel l idx j) = Ok (ent M i j)).
+Proof. exact spike_matrix_props. Qed.
+Print Assumptions C07_spike_matrix_props.
+Theorem C07_sync_matrix_props : forall eps cy mt m iv l idx ts te,
+  Forall (vtrain ts te) l -> iv_ok ts te iv -> idx_ok (length l) idx ->
+  exists M, spike_sync_matrix ROps eps cy false mt m iv l idx = Ok M /\
+    dist_matrix (msize l idx) 1 M /\
+    (forall i j, (i < j)%nat -> (j < msize l idx)%nat ->
+       spike_sync_bi ROps eps cy false mt m iv (sel l idx i) (sel l idx j) = Ok (ent M i j)).
+Proof. exact sync_matrix_props. Qed.
+Print Assumptions C07_sync_matrix_props.
+
+(* ---- from Lem_API7.v ---- *)
+Theorem C07_multi_ranges_idx : forall eps cy m mt ri iv l idx ts te,
+  idx_ok (length l) idx -> (2 <= msize l idx)%nat -> Forall (vtrain ts te) l -> iv_ok ts te iv ->
+  0 <= m ->
+  (exists d, isi_distance_multi ROps eps cy false m iv l idx = Ok d /\ 0 <= d <= 1) /\
+  (exists d, spike_distance_multi ROps eps cy false m ri iv l idx = Ok d /\ 0 <= d <= 1) /\
+  (exists d, spike_sync_multi ROps eps cy false mt m iv l idx = Ok d /\ 0 <= d <= 1).
+Proof. exact multi_ranges_idx. Qed.
+Print Assumptions C07_multi_ranges_idx.
+Theorem C07_multi_bad_index : forall eps cy nrm m mt ri iv (l : list (@train R)) idx,
+  ~ idx_ok (length l) idx ->
+  isi_distance_multi ROps eps cy false m iv l idx = Err AssertionError /\
+  spike_distance_multi ROps eps cy false m ri iv l idx = Err AssertionError /\
+  spike_sync_multi ROps eps cy false mt m iv l idx = Err AssertionError /\
+  spike_train_order_multi ROps eps cy false nrm mt m l idx = Err AssertionError.
+Proof. exact multi_bad_index. Qed.
+Print Assumptions C07_multi_bad_index.
 
 Example C07_nonvacuous : vtrain 0 1 ([0; 1/2; 1], 0, 1) /\ vtrain 0 1 ([], 0, 1).
 Proof. unfold vtrain; cbn [tr_spikes tr_start tr_end fst snd]; repeat split; try lra; valid_tac. Qed.
